@@ -1,2 +1,106 @@
-(* placeholder until Proofs/EncapProofs.v lands *)
-From Snow Require Import Lib.Wire Model.Encap.
+(* C09 — Packet framing round-trips under any read fragmentation.
+   Only theorem statements; every proof is `exact <lemma of Proofs/EncapProofs.v>`.
+   Model: coq/Model/Encap.v (common/encapsulation/encapsulation.go after the fix: commit
+   "fix: read encapsulation length prefix bytes with io.ReadFull"). *)
+From Coq Require Import List NArith Bool Arith Lia.
+From Snow Require Import Lib.Wire Model.Encap Proofs.EncapSweep Proofs.EncapProofs.
+Import ListNotations.
+Open Scope N_scope.
+
+(* Any sequence of data chunks (< 2^20 bytes each) and paddings is read back as exactly the
+   data chunks, in order, padding invisible, for EVERY reader script (short reads,
+   zero-length reads, data returned together with EOF). *)
+Theorem C09_roundtrip_any_reader : forall items s sc,
+  items_ok items -> encode_items items = Some s -> read_stream s sc = (datas items, EOF).
+Proof. exact roundtrip_any_reader. Qed.
+
+(* The writer accepts exactly the item lists whose data chunks are below 2^20 bytes. *)
+Theorem C09_encode_total : forall items, items_ok items -> exists s, encode_items items = Some s.
+Proof. exact encode_total. Qed.
+Theorem C09_encode_rejects_long : forall items, encode_items items <> None -> items_ok items.
+Proof. exact encode_rejects_long. Qed.
+
+(* The reader's fragmentation never matters: for every byte string (not only encoder output)
+   and every script the result is that of the script-free parser. *)
+Theorem C09_script_independent : forall s sc, read_stream s sc = decode_stream s.
+Proof. exact read_stream_independent. Qed.
+
+(* Every byte string is whole chunks followed by a tail; the data chunks returned are exactly
+   those of the whole chunks; the error is EOF only at a chunk boundary, UnexpectedEOF when the
+   tail ends inside a prefix or body, TooLong when a third prefix byte has its continuation bit. *)
+Theorem C09_classify : forall s,
+  exists cs tail, Forall chunk_wf cs /\ s = chunks_bytes cs ++ tail /\
+    fst (decode_stream s) = chunks_datas cs /\
+    match snd (decode_stream s) with
+    | EOF => tail = []
+    | UnexpectedEOF => parse_one tail = PShort
+    | TooLong => parse_one tail = PLong
+    end.
+Proof. exact classify. Qed.
+
+Theorem C09_classify_converse : forall cs tail e,
+  Forall chunk_wf cs -> tail_err (parse_one tail) = Some e ->
+  decode_stream (chunks_bytes cs ++ tail) = (chunks_datas cs, e).
+Proof. exact decode_decomposed. Qed.
+
+Theorem C09_toolong_shape : forall t, parse_one t = PLong <->
+  exists b0 b1 b2 r, t = b0 :: b1 :: b2 :: r /\
+    N.land b0 64 <> 0 /\ N.land b1 128 <> 0 /\ N.land b2 128 <> 0.
+Proof. exact parse_one_long_iff. Qed.
+
+(* Every complete 1..3-byte prefix (minimal or not) announces the value of its payload bits,
+   which is below 2^20: the buffer allocated for a body (N.to_nat n in read_data) never
+   exceeds the announcement, and the announcement never exceeds 2^20 - 1. *)
+Theorem C09_nonminimal_and_bound : forall p isd v, hdr_exact p = Some (isd, v) ->
+  v < 1048576 /\
+  match p with
+  | [b0] => v = N.land b0 63
+  | [b0; b1] => v = N.land b0 63 * 128 + N.land b1 127
+  | [b0; b1; b2] => v = (N.land b0 63 * 128 + N.land b1 127) * 128 + N.land b2 127
+  | _ => False
+  end.
+Proof. exact hdr_exact_value. Qed.
+
+Theorem C09_any_prefix_spelling_decodes : forall c rest, chunk_wf c ->
+  parse_one (chunk_bytes c ++ rest) = PChunk (c_isdata c) (c_body c) rest.
+Proof. exact parse_one_chunk. Qed.
+
+Example C09_nonminimal_example :
+  hdr_exact [132] = Some (true, 4) /\ hdr_exact [192; 4] = Some (true, 4) /\ hdr_exact [192; 128; 4] = Some (true, 4).
+Proof. repeat split. Qed.
+
+(* A stream cut at ANY byte offset yields a prefix of the data chunks (those wholly contained)
+   and stops with EOF or UnexpectedEOF: no partial, merged or invented chunk. *)
+Theorem C09_truncation_prefix : forall cs k, Forall chunk_wf cs ->
+  exists j e, decode_stream (firstn k (chunks_bytes cs)) = (firstn j (chunks_datas cs), e) /\
+              (e = EOF \/ e = UnexpectedEOF).
+Proof. exact truncation_prefix. Qed.
+
+(* Padding of size n occupies exactly n bytes and is invisible to every reader. *)
+Theorem C09_padding_exact : forall n, length (write_padding n) = N.to_nat n.
+Proof. exact padding_exact. Qed.
+Theorem C09_padding_invisible : forall n sc, read_stream (write_padding n) sc = ([], EOF).
+Proof. exact padding_invisible. Qed.
+
+(* A chunk sized by the size-budget helper never exceeds its budget. *)
+Theorem C09_budget : forall n d, 0 < n -> blen d = max_data_for_size n ->
+  exists w, write_data d = Some w /\ N.of_nat (length w) <= n.
+Proof. exact budget_respected. Qed.
+
+(* The pinned code (one r.Read per prefix byte, count ignored) violated the round trip:
+   regression witnesses, replayed on the Go code before the fix. *)
+Theorem C09_v0_refuted_zero_read :
+  let items := [Data (gen_bytes 200 1)] in
+  let sc := [(1%nat, false); (0%nat, false); (1%nat, false)] in
+  exists s, items_ok items /\ encode_items items = Some s /\ read_stream_v0 s sc <> (datas items, EOF).
+Proof. exact v0_refuted_zero_read. Qed.
+Theorem C09_v0_refuted_eof_with_data :
+  let items := [Data []] in
+  let sc := [(1%nat, true)] in
+  exists s, items_ok items /\ encode_items items = Some s /\ read_stream_v0 s sc <> (datas items, EOF).
+Proof. exact v0_refuted_eof_with_data. Qed.
+
+(* non-vacuity: hypotheses are satisfiable by a non-trivial case *)
+Example C09_items_ok_example : items_ok [Data [1; 2; 3]; Pad 5; Data []] /\
+  exists s, encode_items [Data [1; 2; 3]; Pad 5; Data []] = Some s.
+Proof. split; [vm_compute; repeat split | eexists; vm_compute; reflexivity]. Qed.
